@@ -135,6 +135,7 @@ type Exec struct {
 
 	// configuration
 	MaxSteps    int
+	Deadline    time.Time // run-wide limit: paths still running then end as inconclusive
 	MaxVisits   int
 	MaxPaths    int
 	AllowPanic  bool
